@@ -2,6 +2,7 @@ from __future__ import division
 
 from . import der, ecdsa
 from .util import orderlen
+from ._compat import safe_repr
 
 
 # orderlen was defined in this module previously, so keep it in __all__,
@@ -236,5 +237,6 @@ def find_curve(oid_curve):
             return c
     raise UnknownCurveError(
         "I don't know about the curve with oid %s."
-        "I only know about these: %s" % (oid_curve, [c.name for c in curves])
+        "I only know about these: %s"
+        % (safe_repr(oid_curve), [c.name for c in curves])
     )
